@@ -637,6 +637,8 @@ func c15Literals() []lit {
 		lst(), lst(li("int", "1"), li("int", "2")), lst(li("null", "null")), lst(lst(li("int", "1"))), li("int", "7"),
 		obj(), obj("a", li("int", "1")), obj("a", li("null", "null"), "b", li("string", "x")), obj("c", lst(obj("a", li("int", "2")), obj("k", li("enum", "CAT")))),
 		obj("any", obj("x", lst(li("int", "1"), li("string", "two"), obj("y", li("null", "null"))))), obj("l", li("int", "3")), obj("zz", li("int", "1")),
+		// an escape sequence followed by raw non-ASCII text; text on the opening line of a block string
+		li("string", "say \"grüße\" \\ 😀 ñ"), lst(li("string", "q\"é"), obj("b", li("string", "t\\ü"))), li("block", "select *\n      from t\n    where ü"),
 	}
 }
 
@@ -665,7 +667,7 @@ func c15Nested(vi int) []struct {
 }
 
 func runC15(c *explore.Ctx) {
-	s := c.Sub("sources", "field f and directive @dir with 11 arguments of every flavour (nullable, default, non-null with default, input object, list, enum, custom scalar, ID, Float, Boolean); every argument × every source: omitted, each of 27 literals (incl. out-of-range numbers, nested lists/objects, arbitrary custom-scalar literals), a variable × {no default, default, default null} × {absent, null, value}, a variable nested in a list / object / custom-scalar literal × the same 9 combinations; thorough: every pair of such argument sources",
+	s := c.Sub("sources", "field f and directive @dir with 11 arguments of every flavour (nullable, default, non-null with default, input object, list, enum, custom scalar, ID, Float, Boolean); every argument × every source: omitted, each of 30 literals (incl. out-of-range numbers, nested lists/objects, arbitrary custom-scalar literals), a variable × {no default, default, default null} × {absent, null, value}, a variable nested in a list / object / custom-scalar literal × the same 9 combinations; thorough: every pair of such argument sources",
 		"for documents that validate and variables that coerce: ArgumentMap returns normally and equals CoerceArgumentValues (keys exactly the arguments that have a value; literal > variable value > argument default)", "cases that validate and coerce")
 	if s == nil {
 		return
